@@ -38,7 +38,7 @@ def _fname(f):
     f = f.strip()
     if f.startswith('operator'):
         m = re.match(r'(operator\s*(?:\(\)|[^(]*))', f)
-        return m.group(1).strip() if m else f
+        return re.sub(r'\s+', '_', m.group(1).strip() if m else f)
     depth = 0
     out = []
     for ch in f:            # drop the parameter list but keep template arguments short
@@ -51,7 +51,7 @@ def _fname(f):
         out.append(ch)
     s = ''.join(out).strip()
     s = re.sub(r'<.*>', '<>', s)
-    return s[:120]
+    return re.sub(r'\s+', '_', s)[:120]
 
 
 def frames_of(text, limit=8):
